@@ -619,6 +619,8 @@ class Interp:
             return len(s)
         if is_arr(s):
             return self.arr_len(s)
+        if is_arr2(s):
+            return self.arr2_dims(s)[0]  # len() of a 2-D array: its number of rows
         if isinstance(s, range):
             return len(s)
         raise Unsupported("len() of %r" % (s,))
@@ -1171,6 +1173,11 @@ class Interp:
             return disj(*[self._eqv(item, k) for k in keys])
         if isinstance(container, SymList) and isinstance(item, ObjV):
             return self.heap.list_member(container.field, container.owner.ref, item.ref)
+        if isinstance(container, np.ndarray) and container.ndim == 1 and container.dtype.kind in "fiub":
+            # a concrete numpy vector: x in a is any(a == x)
+            return self._contains([v.item() for v in container], item)
+        if isinstance(container, LArr) and concrete_int(container.n) is not None:
+            return disj(*[self._eqv(item, container.get(i)) for i in range(concrete_int(container.n))])
         raise Unsupported("membership test in %r" % (container,))
 
     def _eqv(self, a, b):
@@ -1830,6 +1837,14 @@ class Interp:
                 v[idx] = val
                 return
             raise Unsupported("symbolic store into concrete ndarray (convert with np.array first)")
+        if isinstance(v, LArr2) and isinstance(idx, LArr2) and not is_arr(val) and not is_arr2(val):
+            # a[mask] = scalar with a 2-D mask of the same shape: every selected cell takes the value, the others keep theirs
+            da, dm = self.arr2_dims(v), self.arr2_dims(idx)
+            if not all(concrete_int(x) is not None and concrete_int(x) == concrete_int(y) for x, y in zip(da, dm)):
+                raise Unsupported("2-D boolean-mask store with a mask of another (or symbolic) shape")
+            old, m, sv = v.get, idx.get, val
+            v.get = lambda i, j: ite(core.to_bool(m(i, j)), sv, old(i, j))
+            return
         raise Unsupported("subscript store on %r" % (v,))
 
     def _scalar(self, val):
@@ -2131,6 +2146,9 @@ class Interp:
             if n is not None:
                 return [rd(i) for i in range(n)]
             return MapSeq(self.arr_len(v), rd, is_array=True)
+        if isinstance(v, LArr2) and concrete_int(v.nr) is not None:
+            # iterating a 2-D array yields its rows
+            return [LArr(v.nc, (lambda r: (lambda j: v.get(r, j)))(i)) for i in range(concrete_int(v.nr))]
         raise Unsupported("iteration over %r" % (v,))
 
     def forced_length(self, v):
